@@ -5,8 +5,14 @@ from .common import bump
 ID = "C13"
 AREA = "c13"
 LEAN_PROPS = "Litep2pVerif.Props.C13"
-THEOREMS = ["at_most_one_terminal", "request_located", "active_owned", "exactly_one_at_quiescence", "response_matches",
-            "responder_sees_once", "inbound_delivered", "inbound_bound", "cancel_effect"]
+THEOREMS = ["at_most_one_terminal", "request_located", "active_owned", "exactly_one_at_quiescence",
+            "parked_only_while_dial_owed", "dial_answer_settles", "response_matches",
+            "responder_sees_once", "inbound_delivered", "inbound_bound", "cancel_effect", "outcome_translation_total",
+            "error_kind_translation", "handle_stream_faithful", "request_ids_and_channel", "answer_at_most_once"]
+CHANNEL_SIZE = 4096     # DEFAULT_CHANNEL_SIZE (checked against the source through CONST_TABLE / Props.C13)
+CONST_TABLE = [
+    ("RR_COMMAND_CHANNEL_SIZE", "src/lib.rs", r"const DEFAULT_CHANNEL_SIZE: usize = (\d+)usize;", 4096),
+]
 MANIFEST = {
     "text": "Lean 4 theorems about an operational model of RequestResponseProtocol (same state components and handler "
             "order as request_response/mod.rs; every interleaving of user commands, transport events and completions of "
@@ -21,7 +27,21 @@ MANIFEST = {
             "one substream opened for that request id (ghost maps rid -> substream -> wire content); every started request "
             "future writes exactly one payload, the main one or the fallback one iff the substream was negotiated with the "
             "request's own fallback protocol; inbound bound; the "
-            "exact window in which a cancel takes effect. All full strength, by induction over all histories; the "
+            "exact window in which a cancel takes effect. Quiescence is stated over what the transport manager owes, "
+            "not over the protocol's pending_dials: an observer (Model/ReqResp/Env.lean) records every dial() call "
+            "answered Ok until ConnectionEstablished/DialFailure of that peer is delivered; the answers of dial() are "
+            "arbitrary inputs (Ok, AlreadyConnected, TriedToDialSelf, NoAddressAvailable, ChannelClogged, TaskClosed), "
+            "independent of what the protocol was told about the peer, so the window in which the manager still says "
+            "'connected' for a peer the protocol dropped or never registered is included; invariant: every peer with a "
+            "queue in pending_dials is owed a dial; only an Ok answer parks a request, every refusal fails it at once. "
+            "User-facing layer (Model/ReqResp/Handle.lean): every way the per-request future can end is translated into "
+            "at most one user event (none exactly for Canceled); From<SubstreamError> for RejectReason and the "
+            "open-failure translation are total with the stated case split; the handle's stream never hits the From "
+            "impl's panic arm and is a field-preserving one-to-one image of the protocol's events (peer, id, payload, "
+            "error, fallback name), so the user sees at most one terminal event per request; request ids are taken "
+            "before the command is queued and a full command channel (DEFAULT_CHANNEL_SIZE from the source) refuses the "
+            "command and nothing else; an inbound request is answered at most once (send_response / _with_feedback / "
+            "reject_request consume the pending response). All full strength, by induction over all histories; the "
             "oracle checks the same statements on the implementation on every run. Tied to the code "
             "by a seeded differential run of the real protocol + handle (injected transport events, in-memory yamux "
             "substreams, paused clock) against the executable model, plus a per-request ledger oracle.",
@@ -31,25 +51,41 @@ MANIFEST = {
     "technique": "Lean 4 proof (ledger invariant over a labelled transition system) + model/implementation correspondence check",
     "design_ref": "DESIGN.md §7 C13",
 }
-RULE = ("seeded histories over 4 peers (3 dialable): bursts of 1-4 requests per peer with dial-on-demand or reject, "
+RULE = ("seeded histories over 5 peers (the local one, 3 dialable, 1 unknown) with the transport manager's view of every "
+        "peer scripted independently of the transport events (unknown / no address / disconnected / dial record pending / "
+        "dialing / opening / connected; its command channel clogged or gone): the view follows the events with a lag "
+        "(connected before the protocol hears of the connection, still connected after the protocol was told that the "
+        "connection closed - requests issued in that window -, dialing after a DialPeer command) or changes on its own; "
+        "every send API (try_send_request, send_request, the two _with_fallback variants, 2-5 and 257-4100 requests back "
+        "to back so that the command channel / the manager's channel overflow), "
+        "bursts of 1-4 requests per peer with dial-on-demand or reject, "
         "connection established/closed (up to two connections per peer), dial failures, dead connections, substream "
         "open / open failure per request (optionally negotiated with a fallback protocol that is or is not the request's, "
         "optionally with a far end nobody reads so that a 300000-byte request blocks in the first-stage send until its "
         "timeout), requests with a fallback payload, responder answers / rejects / closes at a byte offset / stalls, cancels at "
-        "random points, logical-time advances across the request timeout, inbound requests (complete or held, beyond the "
-        "inbound limit) answered / refused / dropped, payloads 0..max+1; most cases end with a drain phase that answers "
+        "random points (also of one of several requests waiting for the same dial), substreams whose connection is gone "
+        "before the request is written, 12 kinds of substream-open failure, logical-time advances across the request "
+        "timeout, inbound requests (complete or held, beyond the "
+        "inbound limit, negotiated with a fallback name) answered (with or without feedback channel, twice) / refused / "
+        "dropped, payloads 0..max+1; a state snapshot before the end; most cases end with a drain phase that answers "
         "every dial and substream open and lets every future time out; a case is non-trivial if it has a delivered "
         "response and a failure; distinct = distinct (ops, observations) transcripts by SHA-256")
 TRUSTED_BASE = ["Lean 4.33 kernel", "axioms: propext, Classical.choice, Quot.sound only",
                 "hand-written model Model/ReqResp/Ledger.lean (protocol) and the environment model inside Driver/C13.lean "
                 "(TransportService + harness, used only by the driver) tied to request_response/mod.rs by this correspondence run",
-                "adapter /repo/src/verif/c13.rs (plays transport manager, connections and remote peers), harness, verif.py, "
-                "checks/c13.py",
+                "adapter /repo/src/verif/c13.rs (plays transport manager, connections and remote peers; the real "
+                "TransportManagerHandle::dial runs over the manager's shared peer map, which src/verif/c13_manager.rs "
+                "fills with real PeerState values), harness, verif.py, checks/c13.py",
                 "tokio runtime with paused clock (timeouts driven by logical time, 1 unit = 10 s)",
                 "yamux + Substream framing treated as a black box whose results (response / eof / read failure / too large) "
                 "are validated by the differential run"]
 ASSUMPTIONS = ["request and substream ids come from fetch_add counters and are never reused (stated as hypotheses of the "
                "step relation)",
+               "C05: a dial() answered Ok (started or already in progress) is concluded by ConnectionEstablished or "
+               "DialFailure for that peer; the quiescence theorem is conditional on no such dial being outstanding "
+               "(dialsOwed = [])",
+               "the user reads the handle's events between operations (the adapter drains after every operation), so the "
+               "4096-slot event channel never blocks the protocol for longer than one operation",
                "transport events respect the C08 grammar: substream results only for substreams the protocol still waits "
                "for, at most two connections per peer (the adapter refuses anything else)",
                "keep-alive downgrades are outside the scope (C09): the adapter uses an effectively infinite keep-alive",
@@ -60,6 +96,14 @@ ASSUMPTIONS = ["request and substream ids come from fetch_add counters and are n
 KEEP_PREFIX = 1
 
 PEERS = [1, 2, 3, 4]
+SUBFAIL_KINDS = ["closed", "closed", "unsupported", "unsupported", "notconn", "timeout", "notconn-yamux", "notconn-neg",
+                 "notconn-ms", "reset", "reset-yamux", "reset-neg", "reset-ms", "clogged"]
+# `ev subfail r<k> <kind>`: the failure the user must see
+SUBFAIL_WORD = {"closed": "open-error:closed", "unsupported": "unsupported", "notconn": "conn-closed",
+                "notconn-yamux": "conn-closed", "notconn-neg": "conn-closed", "notconn-ms": "conn-closed",
+                "timeout": "open-error:negotiation-timeout", "reset": "open-error:io", "reset-yamux": "open-error:yamux",
+                "reset-neg": "open-error:negotiation", "reset-ms": "open-error:negotiation", "clogged": "open-error:clogged"}
+MGR_VIEWS = ["unknown", "noaddr", "disconnected", "redial", "dialing", "opening", "connected"]
 
 
 def payload(length, fill):
@@ -133,27 +177,49 @@ def gen_case(rng, n_ops):
             return rng.randrange(max(0, len(sends) - 4), len(sends))
         return rng.randrange(len(sends))
 
+    def note_sent(p, mode):
+        k = len(sends)
+        sends.append(p)
+        if conns.get(p):
+            phase[k] = "opening"
+        elif mode == "dial" and view.get(p, "disconnected" if 1 <= p <= 3 else "unknown") in (
+                "disconnected", "dialing", "opening", "redial"):
+            phase[k] = "dialing"
+        else:
+            phase[k] = "done"
+
     def send(p, mode, burst):
         for _ in range(burst):
             k = len(sends)
+            # every API variant: try_send_request / send_request, with and without fallback
+            suffix = " async" if rng.random() < 0.3 else ""
             if rng.random() < 0.15:
                 ops.append(f"sendfb {p} {pick_len(rng, mx)} {k % 256} {mode} {rng.choice([1, 2])} "
-                           f"{pick_len(rng, mx)} {(k + 77) % 256}")
+                           f"{pick_len(rng, mx)} {(k + 77) % 256}{suffix}")
             else:
-                ops.append(f"send {p} {pick_len(rng, mx)} {k % 256} {mode}")
-            sends.append(p)
-            if conns.get(p):
-                phase[k] = "opening"
-            elif mode == "dial" and p != 4:
-                phase[k] = "dialing"
-            else:
-                phase[k] = "done"
+                ops.append(f"send {p} {pick_len(rng, mx)} {k % 256} {mode}{suffix}")
+            note_sent(p, mode)
+        # the transport manager handles the `DialPeer` command (or not yet)
+        if mode == "dial" and not conns.get(p) and view.get(p, "disconnected") == "disconnected" and 1 <= p <= 3 \
+                and rng.random() < 0.6:
+            mgr(p, "dialing")
+
+    def back_to_back(p, mode, count):
+        ops.append(f"burst {p} {count} {mode}" + (" fb" if rng.random() < 0.3 else ""))
+        for _ in range(count):
+            note_sent(p, mode)
 
     def establish(p):
         c = next_conn[0]
         next_conn[0] += 1
         dead = rng.random() < 0.06
+        # the transport manager learns about the connection before the protocols do
+        r = rng.random()
+        if r < 0.6:
+            mgr(p, "connected")
         ops.append(f"ev established {p} {c}" + (" dead" if dead else ""))
+        if 0.6 <= r < 0.85:
+            mgr(p, "connected")
         if len(conns.get(p, [])) < 2:
             first = not conns.get(p)
             conns.setdefault(p, []).append(c)
@@ -175,8 +241,29 @@ def gen_case(rng, n_ops):
                 # protocol has already failed the request
                 if was_open and rng.random() < 0.6:
                     late_answers.append(rng.choice(was_open))
+                # ... and the transport manager hears about it after the protocols
+                if view.get(p) == "connected" and rng.random() < 0.7:
+                    window(p)
+                elif rng.random() < 0.8:
+                    mgr(p, "disconnected")
 
     late_answers = []
+    view = {}             # peer -> the manager's view as scripted so far (a guess of what is consistent)
+
+    def mgr(p, v):
+        ops.append(f"mgr {p} {v}")
+        view[p] = v
+
+    def window(p):
+        """The protocol has been told that the last connection to `p` is gone, the transport manager has not
+        caught up yet (connections report to the protocols first): requests issued now see `AlreadyConnected`."""
+        send(p, "dial", rng.choice([1, 1, 2]))
+        if rng.random() < 0.5:
+            ops.append("state")
+        if rng.random() < 0.85:
+            mgr(p, "disconnected")
+            if rng.random() < 0.4:
+                send(p, "dial", 1)
 
     def respond(k):
         r = rng.random()
@@ -195,9 +282,15 @@ def gen_case(rng, n_ops):
     def inbound(p, burst):
         for _ in range(burst):
             hold = rng.random() < 0.5
-            ops.append(f"inbound {p} {pick_len(rng, min(mx, 70000))} {(200 + len(inb)) % 256}{' hold' if hold else ''}")
+            fb = f" fb={rng.choice([1, 2, 9])}" if rng.random() < 0.3 else ""
+            ops.append(f"inbound {p} {pick_len(rng, min(mx, 70000))} {(200 + len(inb)) % 256}{' hold' if hold else ''}{fb}")
             inb.append("held" if hold else "asked")
 
+    big = []
+    if rng.random() < 0.012:
+        big.append((rng.choice([4, 4, peer()]), "reject" if rng.random() < 0.7 else "dial", rng.choice([4097, 4100])))
+    if rng.random() < 0.012:
+        big.append((peer(), "dial", rng.choice([257, 300])))
     if rng.random() < 0.5:
         establish(focus[0])
     while len(ops) < n_ops:
@@ -206,7 +299,28 @@ def gen_case(rng, n_ops):
         blind = rng.random() < 0.2
         r = rng.random()
         if r < 0.20:
-            send(peer(), "dial" if rng.random() < 0.75 else "reject", rng.choice([1, 1, 2, 2, 3, 4]))
+            q = rng.random()
+            mode = "dial" if rng.random() < 0.75 else "reject"
+            if q < 0.03:
+                send(0, "dial", 1)                      # the local peer
+            elif q < 0.08:
+                back_to_back(peer(), mode, rng.choice([2, 3, 5]))
+            elif big:
+                # more than the command channel (4096) / the manager's channel (256) takes
+                back_to_back(*big.pop())
+            else:
+                send(peer(), mode, rng.choice([1, 1, 2, 2, 3, 4]))
+        elif r < 0.215:
+            # the manager's view changes on its own (another protocol dialed, addresses were forgotten, ...)
+            q = rng.random()
+            if q < 0.75:
+                mgr(peer(), rng.choice(["unknown", "noaddr", "disconnected", "redial", "dialing", "opening", "connected"]))
+            elif q < 0.85:
+                ops.append("mgr clog")
+            elif q < 0.97:
+                ops.append("mgr unclog")
+            else:
+                ops.append("mgr gone")
         elif r < 0.30:
             k = None if blind else some("dialing")
             establish(sends[k] if k is not None else peer())
@@ -219,7 +333,11 @@ def gen_case(rng, n_ops):
         elif r < 0.39:
             k = None if blind else some("dialing")
             p = sends[k] if k is not None else peer()
+            if rng.random() < 0.5:
+                mgr(p, "disconnected")
             ops.append(f"ev dialfail {p}")
+            if view.get(p) in ("dialing", "opening", "redial") and rng.random() < 0.8:
+                mgr(p, "disconnected")
             for k2, q in enumerate(sends):
                 if q == p and phase[k2] == "dialing":
                     phase[k2] = "done"
@@ -236,6 +354,8 @@ def gen_case(rng, n_ops):
                 extra += f" fb={rng.choice([1, 2, 3])}"
             if rng.random() < (0.4 if mx >= 300000 else 0.08):
                 extra += " noread"
+            elif rng.random() < 0.05:
+                extra += " broken"
             ops.append(f"ev subopen r{k}{extra}")
             if phase.get(k) == "opening":
                 phase[k] = "open"
@@ -243,7 +363,7 @@ def gen_case(rng, n_ops):
             k = any_rid() if blind else some("opening")
             if k is None:
                 continue
-            ops.append(f"ev subfail r{k} {rng.choice(['closed', 'unsupported', 'notconn', 'timeout'])}")
+            ops.append(f"ev subfail r{k} {rng.choice(SUBFAIL_KINDS)}")
             if phase.get(k) == "opening":
                 phase[k] = "done"
         elif r < 0.74:
@@ -252,7 +372,9 @@ def gen_case(rng, n_ops):
                 continue
             respond(k)
         elif r < 0.80:
-            k = any_rid() if blind or rng.random() < 0.4 else some("open")
+            q = rng.random()
+            # also: one of several requests that wait for the same dial
+            k = any_rid() if blind or q < 0.3 else some("dialing") if q < 0.5 else some("open")
             if k is None:
                 continue
             ops.append(f"cancel r{k}")
@@ -278,13 +400,15 @@ def gen_case(rng, n_ops):
             ks = [k for k, v in enumerate(inb) if v == "asked"]
             k = rng.choice(ks) if ks and not blind else (rng.randrange(len(inb)) if inb else 0)
             if rng.random() < 0.75:
-                ops.append(f"answer i{k} {pick_len(rng, mx)} {(50 + k) % 256}")
+                ops.append(f"answer i{k} {pick_len(rng, mx)} {(50 + k) % 256}" + (" feedback" if rng.random() < 0.4 else ""))
             else:
                 ops.append(f"refuse i{k}")
             if k < len(inb):
                 inb[k] = "done"
         else:
             ops.append("state")
+    # what is parked must be waiting for a dial the transport manager owes
+    ops.append("state")
     if rng.random() < 0.85:
         # drain: the environment answers everything it still owes
         for p in sorted(set(sends)):
@@ -292,7 +416,7 @@ def gen_case(rng, n_ops):
                 ops.append(f"ev dialfail {p}")
             else:
                 establish(p)
-        for k in range(len(sends)):
+        for k in range(max(0, len(sends) - 60), len(sends)):
             ops.append(f"ev subfail r{k} closed" if rng.random() < 0.6 else f"ev subopen r{k}")
         ops.append(f"advance {timeout}")
         ops.append(f"advance {timeout}")
@@ -316,7 +440,26 @@ def corpus():
             ["cfg max=400000 timeout=2 inmax=none", "ev established 1 0", "sendfb 1 3 0 reject 7 5 1", "ev subopen r0 fb=7",
              "respond r0 4 9", "sendfb 1 3 0 reject 7 5 1", "ev subopen r1 fb=8", "send 1 300000 3 reject",
              "ev subopen r2 noread", "cancel r2", "advance 1", "state", "advance 1", "state", "send 1 10 3 reject",
-             "ev subopen r3 noread", "cancel r3", "state"]]
+             "ev subopen r3 noread", "cancel r3", "state"],
+            # the window: the protocol has been told that the connection closed, the manager still says connected
+            ["cfg max=64 timeout=2 inmax=none", "mgr 1 connected", "ev established 1 0", "ev closed 1 0",
+             "send 1 4 1 dial", "state", "mgr 1 disconnected", "send 1 4 2 dial", "state", "ev dialfail 1", "state"],
+            # a peer the protocol never registered (every substream open failed), connected for the manager
+            ["cfg max=64 timeout=2 inmax=none", "send 1 3 0 dial", "mgr 1 dialing", "mgr 1 connected",
+             "ev established 1 0 dead", "state", "send 1 3 1 dial async", "state", "ev closed 1 0", "state"],
+            # every answer of dial(); cancel of one of three requests waiting for the same dial
+            ["cfg max=64 timeout=2 inmax=none", "send 0 1 0 dial", "send 4 1 1 dial", "mgr 2 noaddr", "send 2 1 2 dial",
+             "mgr 2 redial", "send 2 1 3 dial", "mgr 3 opening", "sendfb 3 1 4 dial 1 2 5", "mgr clog", "send 1 1 5 dial",
+             "mgr unclog", "send 1 1 6 dial", "send 1 1 7 dial async", "burst 1 2 dial", "cancel r7", "state", "mgr gone",
+             "send 1 1 8 dial", "mgr 1 dialing", "ev established 1 0", "ev subopen r6", "ev subopen r7 fb=3", "respond r6 2 2",
+             "respond r7 3 3", "ev dialfail 2", "ev dialfail 3", "state"],
+            # full command channel; inbound fallback names; feedback
+            ["cfg max=64 timeout=2 inmax=2", "burst 4 4097 reject", "ev established 1 0", "inbound 1 4 4 fb=2",
+             "answer i0 3 3 feedback", "answer i0 3 3 feedback", "inbound 1 4 5 hold fb=9", "feed i1", "answer i1 100 3 feedback",
+             "inbound 1 4 6", "refuse i2", "answer i2 1 1 feedback", "state"],
+            # the read of an inbound request completes after its connection was replaced / is gone
+            ["cfg max=64 timeout=2 inmax=2", "ev established 1 0", "inbound 1 4 4 hold", "ev closed 1 0", "ev established 1 1",
+             "feed i0", "state", "inbound 1 4 5 hold fb=1", "ev closed 1 1", "feed i1", "state"]]
 
 
 def mutate_case(rng, case, n):
@@ -373,6 +516,30 @@ def oracle(case, out):
     ninb = 0
     now = 0            # logical time
     opened_at = {}     # "rK" -> logical time its substream was handed to the protocol
+    view = {}          # peer -> the transport manager's view, as scripted (`mgr <p> <view>`)
+    clog = gone = False
+    owed = set()       # peers whose dial the transport manager has accepted / reported in progress and not concluded
+    live = {}          # peer -> number of live connections at the transport service
+    negotiated = {}    # "rK" -> fallback protocol its substream was negotiated with
+    feedback_of = {}   # "iK" -> True once a response was written for it
+
+    def view_of(p):
+        return view.get(p, "disconnected" if 1 <= p <= 3 else "unknown")
+
+    def dial_refusal(p):
+        """What `TransportManagerHandle::dial` must answer for the scripted view (None: Ok)."""
+        if p == 0:
+            return "self"
+        w = view_of(p)
+        if w in ("unknown", "noaddr"):
+            return "no-address"
+        if w == "connected":
+            return "already-connected"
+        if w in ("dialing", "opening", "redial"):
+            return None
+        if gone:
+            return "task-closed"
+        return "clogged" if clog else None
     for i, op in enumerate(case):
         if i >= len(out):
             break
@@ -398,7 +565,17 @@ def oracle(case, out):
             st = parse_state(o)
             if cfg["inmax"] is not None and int(st.get("inreqs", 0)) + int(st.get("outresps", 0)) > cfg["inmax"]:
                 v("inbound-bound", f"{st['inreqs']}+{st['outresps']} inbound requests in flight, limit {cfg['inmax']}", i)
-            if st.get("dials") == "" and st.get("outbound") == "" and st.get("futures") == "0":
+            # a request may only be parked while the transport manager owes the conclusion of a dial of its peer
+            for entry in filter(None, st.get("dials", "").split(",")):
+                pp, _, ids = entry.partition(":")
+                if pp.isdigit() and int(pp) not in owed:
+                    for k in filter(None, ids.strip("[]").split("+")):
+                        if not terminals.get(k):
+                            v("parked-without-dial", f"request {k} is parked in pending_dials for peer {pp} although the "
+                              f"transport manager has no dial of that peer to conclude (its view: {view_of(int(pp))}): nothing "
+                              f"will ever resolve it", i, request=k)
+            # quiescence is judged by what the environment owes, not by the protocol's own bookkeeping
+            if not owed and st.get("outbound") == "" and st.get("futures") == "0":
                 for k, r in reqs.items():
                     n = len(terminals.get(k, []))
                     if n == 0 and k not in cancelled:
@@ -406,12 +583,67 @@ def oracle(case, out):
                           f"substream open or request future is outstanding", i, request=k)
             continue
         res, calls, events = split_obs(o)
-        if (t[0] == "send" and len(t) == 5) or (t[0] == "sendfb" and len(t) == 8):
+        if t[-1] == "async" and t[0] in ("send", "sendfb"):
+            t = t[:-1]
+        if t[0] == "mgr" and res == "ok":
+            if t[1:] == ["clog"]:
+                clog = True
+            elif t[1:] == ["unclog"]:
+                clog = False
+            elif t[1:] == ["gone"]:
+                gone = True
+            elif len(t) == 3 and t[1].isdigit():
+                view[int(t[1])] = t[2]
+        elif (t[0] == "send" and len(t) == 5) or (t[0] == "sendfb" and len(t) == 8):
             k = f"r{nsend}"
             nsend += 1
             if res == k:
                 reqs[k] = {"peer": int(t[1]), "len": int(t[2]), "fill": int(t[3]), "mode": t[4], "step": i,
                            "fb": (int(t[5]), int(t[6]), int(t[7])) if t[0] == "sendfb" else None}
+                if t[4] == "dial":
+                    p = int(t[1])
+                    want = dial_refusal(p)
+                    for e in events:
+                        f = e.split(":")
+                        if f[:2] == ["failed", k] and f[2] == "dial-failed" and len(f) == 4 and f[3] != want:
+                            v("dial-answer", f"request {k}: the transport manager's view of peer {p} is {view_of(p)}, the "
+                              f"request failed with DialFailed({f[3]}) instead of {want or 'waiting for the dial'}", i, request=k)
+                    if f"dial:{p}" in calls or view_of(p) in ("dialing", "opening", "redial"):
+                        owed.add(p)
+        elif t[0] == "burst" and len(t) in (4, 5) and res.startswith("burst:ok="):
+            ok = int(res.split(":")[1].split("=")[1])
+            p = int(t[1])
+            for j in range(int(t[2])):
+                k = f"r{nsend}"
+                nsend += 1
+                if j < ok:
+                    reqs[k] = {"peer": p, "len": 1, "fill": j, "mode": t[3], "step": i,
+                               "fb": (1, 2, j) if len(t) == 5 else None}
+            if t[3] == "dial" and (f"dial:{p}" in calls or view_of(p) in ("dialing", "opening", "redial")):
+                owed.add(p)
+            room = CHANNEL_SIZE
+            if ok != min(int(t[2]), room):
+                v("command-channel", f"{ok} of {t[2]} back-to-back requests were accepted, the command channel takes {room}", i)
+        elif t[0] == "ev" and t[1] == "established" and res == "ok" and t[2].isdigit():
+            p = int(t[2])
+            if live.get(p, 0) == 0:
+                owed.discard(p)           # the protocol has been told: the dial is concluded
+            live[p] = live.get(p, 0) + 1
+        elif t[0] == "ev" and t[1] == "closed" and res == "ok" and t[2].isdigit():
+            live[int(t[2])] = max(0, live.get(int(t[2]), 0) - 1)
+        elif t[0] == "ev" and t[1] == "dialfail" and res == "ok" and t[2].isdigit():
+            owed.discard(int(t[2]))
+            for e in events:
+                f = e.split(":")
+                if f[0] == "failed" and f[2:] != ["dial-failed"]:
+                    v("error-kind", f"a dial failure was reported to the user as {':'.join(f[2:])}", i, request=f[1])
+        elif t[0] == "ev" and t[1] == "subfail" and res == "ok" and len(t) >= 4:
+            want = SUBFAIL_WORD.get(t[3], "open-error:closed")
+            for e in events:
+                f = e.split(":")
+                if f[:2] == ["failed", t[2]] and ":".join(f[2:]) != want:
+                    v("error-kind", f"substream open failure {t[3]!r} of {t[2]} was reported as {':'.join(f[2:])!r}, "
+                      f"expected {want!r}", i, request=t[2])
         elif t[0] == "cancel" and res == "ok":
             cancelled.add(t[1])
         elif t[0] == "ev" and t[1] == "subopen" and res.startswith("opened:"):
@@ -420,11 +652,19 @@ def oracle(case, out):
             opened_at.setdefault(k, now)
             if opened[k] > 1:
                 v("responder-saw-twice", f"a second substream was opened for request {k}", i, request=k)
-            view = res[len("opened:"):]
+            neg0 = next((int(a[3:]) for a in t[3:] if a.startswith("fb=") and a[3:].isdigit()), None)
+            if neg0 is not None:
+                negotiated[k] = neg0
+            view_ = res[len("opened:"):]
             r = reqs.get(k)
-            if r is not None and "noread" in t[3:]:
-                if view != "unread":
-                    v("request-mismatch", f"the far end of {k} is never read but the adapter reports {view!r}", i, request=k)
+            if r is not None and "broken" in t[3:]:
+                for e in events:
+                    f = e.split(":")
+                    if f[:2] == ["failed", k] and ":".join(f[2:]) not in ("open-error:io", "too-large"):
+                        v("error-kind", f"a failed write of {k} was reported as {':'.join(f[2:])!r}", i, request=k)
+            elif r is not None and "noread" in t[3:]:
+                if view_ != "unread":
+                    v("request-mismatch", f"the far end of {k} is never read but the adapter reports {view_!r}", i, request=k)
             elif r is not None:
                 # the request future writes the fallback payload iff the substream was negotiated with the
                 # request's own fallback protocol
@@ -433,8 +673,8 @@ def oracle(case, out):
                 if r["fb"] is not None and neg == r["fb"][0]:
                     ln, fl = r["fb"][1], r["fb"][2]
                 want = show(ln, fl) if ln <= cfg["max"] else "nothing"
-                if view != want:
-                    v("request-mismatch", f"the responder of {k} received {view!r}, the request was {want!r}", i, request=k)
+                if view_ != want:
+                    v("request-mismatch", f"the responder of {k} received {view_!r}, the request was {want!r}", i, request=k)
         elif t[0] == "respond" and res == "ok":
             supplied[t[1]] = (int(t[2]), int(t[3]))
         elif t[0] == "close" and res == "ok":
@@ -444,18 +684,32 @@ def oracle(case, out):
         elif t[0] == "inbound" and len(t) >= 4:
             k = f"i{ninb}"
             ninb += 1
-            inb[k] = {"len": int(t[2]), "fill": int(t[3])}
+            inb[k] = {"len": int(t[2]), "fill": int(t[3]),
+                      "fb": next((int(a[3:]) for a in t[4:] if a.startswith("fb=") and a[3:].isdigit()), None)}
         elif t[0] in ("answer", "refuse") and res.startswith("ok"):
             # only the first answer to a request the user has seen counts (later ones are ignored by the handle)
-            if t[1] in inb_seen and t[1] not in answered:
+            counts = t[1] in inb_seen and t[1] not in answered
+            delivered_now = False
+            if counts:
                 answered.add(t[1])
                 outstanding -= 1
                 if t[0] == "answer" and ":remote=" in res:
-                    view = res.split(":remote=")[1]
-                    frames = view.split(".")[0].split("~")[0]
+                    rview = res.split(":remote=")[1]
+                    frames = rview.split(".")[0].split("~")[0]
                     want = show(int(t[2]), int(t[3]))
+                    delivered_now = frames == want
                     if frames not in ("nothing", want):
                         v("answer-mismatch", f"the remote requester of {t[1]} received {frames!r}, the answer was {want!r}", i)
+            elif t[0] == "answer" and ":remote=" in res and t[1] in inb_seen:
+                # a second answer must not reach the remote
+                frames = res.split(":remote=")[1].split(".")[0].split("~")[0]
+                if "+" in frames:
+                    v("answered-twice", f"the remote requester of {t[1]} received two responses: {frames!r}", i)
+            if t[0] == "answer" and "feedback" in t[4:] and ":feedback=" in res:
+                fbk = res.split(":feedback=")[1].split(":")[0]
+                if (fbk == "sent") != delivered_now:
+                    v("feedback", f"the feedback channel of the answer to {t[1]} reports {fbk!r} although the response "
+                      f"{'reached' if delivered_now else 'did not reach'} the remote", i)
         for e in events:
             f = e.split(":")
             if f[0] in ("resp", "failed"):
@@ -467,6 +721,10 @@ def oracle(case, out):
                 if k not in reqs:
                     v("unknown-request", f"terminal event {e!r} for a request id that was never issued", i)
                 if f[0] == "resp":
+                    got_fb = int(f[4][2:]) if len(f) > 4 and f[4][2:].isdigit() else None
+                    if got_fb != negotiated.get(k):
+                        v("fallback-mismatch", f"response of {k} reported with fallback protocol {got_fb}, its substream was "
+                          f"negotiated with {negotiated.get(k)}", i, request=k)
                     got = ":".join(f[2:4])
                     if k not in supplied:
                         v("response-unsolicited", f"response {got} delivered for {k} but its responder never wrote a complete response", i,
@@ -487,6 +745,11 @@ def oracle(case, out):
                       f"{show(inb[k]['len'], inb[k]['fill'])}", i)
                 if k not in inb:
                     v("inbound-unknown", f"RequestReceived {e!r} for a substream the remote never opened", i)
+                else:
+                    got_fb = int(f[5][2:]) if len(f) > 5 and f[5][2:].isdigit() else None
+                    if got_fb != inb[k]["fb"]:
+                        v("fallback-mismatch", f"inbound request {k} reported with fallback protocol {got_fb}, the remote "
+                          f"negotiated {inb[k]['fb']}", i)
         if t[0] == "advance" and len(t) == 2 and res == "ok" and t[1].isdigit():
             # a silent peer: the request future gives up after at most one timeout for the send and one
             # for the response, whatever the far end does
@@ -513,8 +776,20 @@ def stats(case, out, acc):
         for e in events:
             f = e.split(":")
             bump(acc, "event:" + f[0] + (":" + ":".join(f[2:]) if f[0] == "failed" else ""))
-        if t and t[0] in ("send", "sendfb") and len(t) in (5, 8):
-            bump(acc, t[0] + ":" + t[4])
+        if t and t[0] in ("send", "sendfb") and len(t) in (5, 6, 8, 9):
+            bump(acc, t[0] + ":" + t[4] + (":async" if t[-1] == "async" else ""))
+            for e in events:
+                f = e.split(":")
+                if f[0] == "failed" and f[2] == "dial-failed" and len(f) == 4:
+                    bump(acc, "dial-answer:" + f[3])
+        if t and t[0] == "mgr":
+            bump(acc, "mgr:" + t[-1])
+        if t and t[0] == "burst" and res.startswith("burst:"):
+            bump(acc, "burst:" + ("clogged" if not res.endswith("clogged=0") else "fits"))
+        if t and t[0] == "answer" and ":feedback=" in res:
+            bump(acc, "feedback:" + res.split(":feedback=")[1].split(":")[0])
+        if t and t[0] == "state" and "dials=" in o and "dials= " not in o:
+            bump(acc, "state:parked")
         if t and t[:2] == ["ev", "subopen"] and res.startswith("opened:"):
             bump(acc, "subopen:" + ("noread" if "noread" in t[3:] else "read") +
                  (":fb" if any(a.startswith("fb=") for a in t[3:]) else ""))
